@@ -502,6 +502,34 @@ def cti_of(eng, ctx, model, entry):
     return {"entry": entry.name, "pre": pre, "params": params}
 
 
+def resilient_map(f, xs, jobs, ctxm):
+    """parallel map that survives a worker being killed (OOM killer, crash in the solver): units whose
+    pool broke are retried one at a time in fresh single-worker pools; a unit that kills its worker again
+    is returned as a crash record"""
+    if jobs == 1:
+        return [f(x) for x in xs]
+    import concurrent.futures as cf
+    out = [None] * len(xs)
+    try:
+        with cf.ProcessPoolExecutor(max_workers=jobs, mp_context=ctxm) as ex:
+            futs = {ex.submit(f, x): i for i, x in enumerate(xs)}
+            for fu in cf.as_completed(futs):
+                out[futs[fu]] = fu.result()
+        return out
+    except cf.process.BrokenProcessPool:
+        pass
+    for i, x in enumerate(xs):
+        if out[i] is not None:
+            continue
+        try:
+            with cf.ProcessPoolExecutor(max_workers=1, mp_context=ctxm) as ex:
+                out[i] = ex.submit(f, x).result()
+        except cf.process.BrokenProcessPool:
+            out[i] = {"entry": x[2], "idx": x[2], "crash": "worker process died while exploring this unit (killed?)",
+                      "violated": {}, "obligations": [], "paths": 0, "wall": 0, "cuts": [], "leftover": []}
+    return out
+
+
 def initial_clauses(eng, universe):
     """the clauses of the template that hold in the initial state"""
     reg = eng.make_reg()
@@ -575,19 +603,10 @@ def run_engine(factory_mod, factory_name, tier="quick", jobs=16, max_rounds=40, 
         inv_w["*"] = universe      # a cut point seen for the first time starts from the whole template
         units = [(factory_mod, factory_name, i, inv_w, tier, []) for i in range(len(eng.entries))]
         results = []
-        pool = None if jobs == 1 else ctxm.Pool(jobs)
-        try:
-            while units:
-                if pool is None:
-                    part = [_worker(w) for w in units]
-                else:
-                    part = pool.map(_worker, units, chunksize=1)
-                results += part
-                units = [(factory_mod, factory_name, r["idx"], inv_w, tier, p) for r in part for p in r.get("leftover", [])]
-        finally:
-            if pool is not None:
-                pool.close()
-                pool.join()
+        while units:
+            part = resilient_map(_worker, units, jobs, ctxm)
+            results += part
+            units = [(factory_mod, factory_name, r["idx"], inv_w, tier, p) for r in part for p in r.get("leftover", [])]
         crashed = [r for r in results if r.get("crash")]
         if crashed:
             return {"error": crashed[0]["crash"], "results": results, "inv": inv, "rounds": rounds}
